@@ -18,7 +18,8 @@ PREC = {"or": 1, "and": 2, "cmp": 4, "+": 5, "-": 5, "*": 6, "/": 6, "%": 6, "ne
 class Style:
     """Spelling choices that must not change the meaning."""
 
-    def __init__(self, rng=None, redundant=0.0, spaces=True, case="upper", names=None):
+    def __init__(self, rng=None, redundant=0.0, spaces=True, case="upper", names=None, bare_if=False):
+        self.bare_if = bare_if
         self.rng = rng or random.Random(0)
         self.redundant = redundant
         self.spaces = spaces
@@ -81,7 +82,11 @@ def pr(a, st=None, parent=0, side=None):
         # all binary operators are printed left-associative: the right operand needs strictly higher strength,
         # and chains of ^ are always parenthesised explicitly (their associativity is not fixed by the property)
         left = pr(a[2], st, p - 1 if op != "**" else p, "l")
-        right = pr(a[3], st, p, "r")
+        if st.bare_if and op in ("+", "-") and parent == 0 and a[3][0] == "if":
+            # at sentence level the grammar takes an unparenthesised IF as the right operand of + and - (it extends to the end of the sentence)
+            right = pr(a[3], st, 0, "r")
+        else:
+            right = pr(a[3], st, p, "r")
         o = XOP[op]
         if o == "MOD":
             o = st.kw("MOD")
